@@ -196,4 +196,7 @@ def obligations(tier):
                 obs.append(ob_override(k, tk, 2400))
         for k in (1, 2, 3):
             obs.append(ob_noblanks(k, 300))
+    from harness import numtok
+
+    obs.append(numtok.ob_numtostr())  # a written boundary denotes the in-memory boundary (no collapse by rendering)
     return obs
